@@ -104,6 +104,7 @@ MUST_REACH = [
 
 _S = {}
 _KNOWN_SEEN = {}
+K_INVERTED_IDS = "C16:inverted-repetitions-with-custom-ids-lose-the-inversion"
 KNOWN_RANDOM_MECHS = ("C16:moment-tags-lost-on-constants-hit", "C16:finite-random-variable-values-depend-on-distribution-order")
 
 
@@ -1406,7 +1407,7 @@ def sec_multi(ctx, rng, case):
     ctx.sample({"form": "circuit-function", "assignments": len(rows), "as_map": as_map})
 
 
-N_EDGE = 20
+N_EDGE = 21
 
 
 # ---- deterministic edge cases of the program format (one mechanism each)
@@ -1606,6 +1607,23 @@ def sec_prog_edges(ctx, rng, case):
                 raise
             ctx.reject("tagged-classically-controlled-op")
             ctx.ok("edge-rejections")
+    elif kind == 20:  # an inverted sub-circuit with repetition ids of its own
+        sub = cirq.FrozenCircuit(cirq.X(q0) ** 0.25, cirq.CZ(q0, q1))
+        which = (case // N_EDGE) % 3
+        kw = [dict(repetitions=-2, repetition_ids=["r0", "r1"], use_repetition_ids=True),
+              dict(repetitions=-1, repetition_ids=["a"], use_repetition_ids=True),
+              dict(repetitions=-3, repetition_ids=["x", "y", "z"], use_repetition_ids=False)][which]
+        op = cirq.CircuitOperation(sub, **kw)
+        back, _ = _edge_roundtrip(ctx, cirq.Circuit(op))
+        got = list(back.all_operations())[0]
+        same = got == op and L.allclose(cirq.unitary(back), cirq.unitary(cirq.Circuit(op)), 1e-6)
+        # known defect, explained-by: the wire format holds *either* a repetition count *or* a list of ids; with ids other
+        # than the default ones the count (and with it the sign) is not written and the reader takes len(ids)
+        lost_sign = (not same and got.repetitions == -op.repetitions and list(got.repetition_ids or []) == list(op.repetition_ids)
+                     and got.replace(repetitions=op.repetitions) == op)
+        ctx.check(same, "edge-inverted-subcircuit-with-ids", K_INVERTED_IDS if lost_sign else "C16:inverted-subcircuit-with-ids",
+                  lambda: "CircuitOperation(%r) came back with repetitions=%r, repetition_ids=%r" % (kw, got.repetitions, got.repetition_ids),
+                  arguments=repr(kw))
     else:  # serialize into a caller-provided message; language fields
         v2 = _S["v2"]
         out = v2.program_pb2.Program()
@@ -2853,7 +2871,7 @@ SECTIONS = [
     # name, function, quick cases, thorough cases, time weight (measured: 27 / 11 / 0.4 / 0.4 / 0.4 / 2.5 / 4.3 ms per case)
     ("programs", sec_programs, 2800, 120000, 8.0),
     ("multi", sec_multi, 840, 40000, 1.5),
-    ("prog_edges", sec_prog_edges, 60, 160, 0.2),
+    ("prog_edges", sec_prog_edges, 63, 168, 0.2),
     ("args", sec_args, 7000, 300000, 0.6),
     ("sweeps", sec_sweeps, 10000, 400000, 0.8),
     ("results", sec_results, 7100, 200000, 2.5),
